@@ -105,6 +105,7 @@ static int pick_next(int must_leave, int critical) {
 // ---- mode `lock`: the log format of ocaml/mode_tfree.ml ------------------------------------------
 static int pg_owner[MAXPG];              // owning virtual thread of a registered page (-1 = slot not in use)
 static uint64_t pg_sig[MAXPG];           // signature of the last printed snapshot
+static mi_page_t* lk_subject = NULL;     // the page the current malloc/free call worked on
 static int heap_printed[64];
 static size_t blk_idx(mi_page_t* pg, void* b) { return (size_t)((uint8_t*)b - pg->page_start) / pg->block_size; }
 static int page_known(mi_page_t* pg) { for (int i = 0; i < npages; i++) if (pages[i] == pg) return i; return -1; }
@@ -142,13 +143,14 @@ static void lk_sync(void) {
       int hid = heap_id(h);
       if (hid >= 0 && !heap_printed[hid]) { heap_printed[hid] = 1; printf("H %d %d %d\n", hid, cur, h == dh->tld->heap_backing ? 1 : 0); }
       for (size_t b = 0; b <= MI_BIN_FULL; b++) for (mi_page_t* pg = h->pages[b].first; pg != NULL; pg = pg->next) {
+        if (pg->block_size < 2048) continue;              // not used by the lock program (e.g. the warm-up block's page)
         int k = page_id(pg); if (k < 0) continue;
         pg_owner[k] = cur; seen[k] = 1;
         uintptr_t tf = pg->xthread_free;
         // print the snapshot only when the page differs from its previous snapshot
         uint64_t sig = (uint64_t)pg->reserved * 31 + pg->capacity; sig = sig * 1000003 + pg->used; sig = sig * 1000003 + (uint64_t)mi_page_is_in_full(pg);
         sig = sig * 1000003 + (uint64_t)tf; sig = sig * 1000003 + (uint64_t)(uintptr_t)pg->free; sig = sig * 1000003 + (uint64_t)(uintptr_t)pg->local_free; sig = sig * 1000003 + (uint64_t)hid + 1;
-        if (pg_sig[k] == sig) continue;
+        if (pg_sig[k] == sig && pg != lk_subject) continue;   // (the page a malloc/free worked on is always printed)
         pg_sig[k] = sig;
         printf("G %d %d %d %u %u %u %d %d :", k, hid, cur, (unsigned)pg->reserved, (unsigned)pg->capacity, (unsigned)pg->used, (int)mi_page_is_in_full(pg), (int)(tf & 3));
         lk_list(pg, pg->free); printf(" :"); lk_list(pg, pg->local_free); printf(" :"); lk_list(pg, (mi_block_t*)(tf & ~(uintptr_t)3)); printf("\n");
@@ -201,17 +203,18 @@ static void do_alloc(int s) {
   // up and go through the full queue), 200000 (single-block page: always full, every remote free is a first free)
   static const size_t FOCUS[] = { 40000, 40000, 70000, 200000, 64, 1000 };
   size_t size = (prng_below(&GP, 10) < 7) ? FOCUS[prng_below(&GP, 6)] : SIZES[prng_below(&GP, sizeof(SIZES) / sizeof(SIZES[0]))];
+  if (lockfmt && size < 4000) size = 40000;          // few blocks per page: the replayed states stay small
   uint64_t seed = prng_next(&GP);
   int useheap = (mode == 2 && extra_heap[cur] != NULL && prng_below(&GP, 3) != 0);
   lk_call("malloc", NULL);
   uint8_t* p = (uint8_t*)(useheap ? mi_heap_malloc(extra_heap[cur], size) : mi_malloc(size));
-  if (lockfmt && do_log) { printf("R %d\n", cur); if (p != NULL) { mi_page_t* pg = _mi_ptr_page(p); int so = sched_on; sched_on = 0; int k = page_id(pg); sched_on = so; printf("B %d %d.%zu\n", cur, k, blk_idx(pg, p)); } lk_sync(); }
+  if (lockfmt && do_log) { printf("R %d\n", cur); if (p != NULL) { mi_page_t* pg = _mi_ptr_page(p); int so = sched_on; sched_on = 0; int k = page_id(pg); sched_on = so; printf("B %d %d.%zu\n", cur, k, blk_idx(pg, p)); lk_subject = pg; } lk_sync(); lk_subject = NULL; }
   if (p == NULL) { viol("fail", "malloc(%zu) returned NULL", size); return; }
   // nobody else may hold this memory
   for (int i = 0; i < NSLOTX; i++) if (slots[i].p != NULL) {
     if (p < slots[i].p + slots[i].size && slots[i].p < p + size) { viol("overlap", "malloc(%zu)=%p overlaps live slot %d [%p,+%zu) of t%d", size, p, i, slots[i].p, slots[i].size, slots[i].owner); break; }
   }
-  if (slots[s].p != NULL) { lk_call("free", p); mi_free(p); lk_ret(); return; }      // slot was filled while we were inside malloc
+  if (slots[s].p != NULL) { lk_call("free", p); if (lockfmt) lk_subject = _mi_ptr_page(p); mi_free(p); lk_ret(); lk_subject = NULL; return; }      // slot was filled while we were inside malloc
   for (size_t i = 0; i < size; i++) p[i] = pat(seed, i);
   slots[s].p = p; slots[s].size = size; slots[s].seed = seed; slots[s].owner = cur; slots[s].heapk = useheap;
   page_id(_mi_ptr_page(p)); heap_id(mi_page_heap(_mi_ptr_page(p)) ? mi_page_heap(_mi_ptr_page(p)) : mi_prim_get_default_heap());
@@ -222,8 +225,9 @@ static void do_free(int s) {
   uint8_t* p = slots[s].p; slots[s].p = NULL;          // take it: from now on we hold the block
   if (lockfmt && do_log && slots[s].owner != cur) { mi_page_t* pg = _mi_ptr_page(p); printf("A %d give %d.%zu %d\n", slots[s].owner, page_known(pg), blk_idx(pg, p), cur); }
   lk_call("free", p);
+  if (lockfmt) lk_subject = _mi_ptr_page(p);
   mi_free(p);
-  lk_ret();
+  lk_ret(); lk_subject = NULL;
 }
 static void barrier(int target) {      // all live threads reach `target`
   arrived++;
